@@ -1,6 +1,12 @@
 //! C07: prefixed (single / multi-level, read-only / mutable) storage views obtained from the public
 //! `App` accessors, interleaved with raw access to `App::storage()`, against the window spec and
 //! the namespace_helpers model of coq/Prefix.v (check: coq/Chk07.v).
+//!
+//! Every script is run twice on the real implementation: once with a view built afresh from the App
+//! for every operation (`run_impl`: the raw store is dumped after every operation), and once with
+//! LONG-LIVED view objects (`run_long`: every maximal run of consecutive operations on one view goes
+//! through ONE `Box<dyn Storage>` obtained once from the App; the raw store can be dumped only where
+//! the object has been dropped).  Both observation lists are judged in Coq (`c07l`).
 use common::*;
 use cosmwasm_std::{Order, Storage};
 use cw_multi_test::App;
@@ -200,6 +206,96 @@ fn run_impl(inp: &Input) -> Vec<(Ans, Vec<(Bs, Bs)>)> {
         let a = step(&mut app, op);
         let d = catch(|| dump(&app)).unwrap_or_default();
         obs.push((a, d));
+    }
+    obs
+}
+
+/// the view an operation goes through: (constructor + path, `_mut` accessor?)
+fn view_of(op: &Op) -> Option<(&VRef, bool)> {
+    match op {
+        Op::VGet(v, mu, ..) | Op::VRange(v, mu, ..) | Op::VSet(v, mu, ..) | Op::VDel(v, mu, ..) => Some((v, *mu)),
+        _ => None,
+    }
+}
+
+/// one operation through an EXISTING view object
+fn vstep(view: &mut dyn Storage, op: &Op) -> Ans {
+    catch(|| match op {
+        Op::VGet(_, _, k) => Ans::Get(view.get(&k.0).map(Bs)),
+        Op::VRange(_, _, s, e, asc) => Ans::Range(collect(view.range(ob(s), ob(e), ord(*asc)))),
+        Op::VSet(_, _, k, x) => {
+            view.set(&k.0, &x.0);
+            Ans::Unit
+        }
+        Op::VDel(_, _, k) => {
+            view.remove(&k.0);
+            Ans::Unit
+        }
+        _ => unreachable!("vstep is only called on view operations"),
+    })
+    .unwrap_or(Ans::Panic)
+}
+
+/// end (exclusive) of the maximal run of consecutive operations on the view of ops[i]
+fn run_end(ops: &[Op], i: usize) -> usize {
+    let v = view_of(&ops[i]);
+    let mut j = i + 1;
+    if v.is_some() {
+        while j < ops.len() && view_of(&ops[j]) == v {
+            j += 1;
+        }
+    }
+    j
+}
+
+/// second pass, long-lived view objects: the same script on a fresh emptied App, every maximal run of
+/// consecutive operations on one view performed through ONE object obtained once from the App (a
+/// panicking operation does not end the run: the same object serves the next one; if the accessor
+/// itself panics every operation of the run is a panic).  Observation i = (answer of op i, Some(raw
+/// dump) if the view object has been dropped after op i — the borrow rules forbid looking at
+/// `App::storage()` earlier — else None).
+fn run_long(inp: &Input) -> Vec<(Ans, Option<Vec<(Bs, Bs)>>)> {
+    let mut app = App::default();
+    for (k, _) in dump(&app) {
+        app.storage_mut().remove(&k.0);
+    }
+    let ops = &inp.ops;
+    let mut obs = vec![];
+    let mut i = 0;
+    while i < ops.len() {
+        let j = run_end(ops, i);
+        match view_of(&ops[i]) {
+            None => {
+                let a = step(&mut app, &ops[i]);
+                obs.push((a, Some(catch(|| dump(&app)).unwrap_or_default())));
+            }
+            Some((v, mu)) => {
+                let mut answers = vec![];
+                {
+                    let built: Result<Box<dyn Storage + '_>, String> = if mu {
+                        let r = &mut app;
+                        catch(move || mut_view(r, v))
+                    } else {
+                        let r = &app;
+                        catch(move || ro_view(r, v))
+                    };
+                    match built {
+                        Ok(mut view) => {
+                            for op in &ops[i..j] {
+                                answers.push(vstep(view.as_mut(), op));
+                            }
+                        }
+                        Err(_) => answers.resize(j - i, Ans::Panic),
+                    }
+                }
+                let d = catch(|| dump(&app)).unwrap_or_default();
+                let n = answers.len();
+                for (x, a) in answers.into_iter().enumerate() {
+                    obs.push((a, if x + 1 == n { Some(d.clone()) } else { None }));
+                }
+            }
+        }
+        i = j;
     }
     obs
 }
@@ -640,28 +736,98 @@ fn exhaustive(out: &mut Out, views: &[VRef], ks: &[Bs], n: usize, base: &[(Bs, B
     }
 }
 
+/// distribution of the long-lived runs of a script (which operations the first pass showed to be
+/// no-ops is read off its dumps: a remove after which the raw store is unchanged removed an absent key)
+fn long_lived_stats(out: &mut Out, inp: &Input, obs: &[(Ans, Vec<(Bs, Bs)>)]) {
+    let ops = &inp.ops;
+    let mut i = 0;
+    while i < ops.len() {
+        let j = run_end(ops, i);
+        if let Some((v, mu)) = view_of(&ops[i]) {
+            if j - i >= 2 {
+                out.stat(if mu { "long_lived_runs_mutable_view" } else { "long_lived_runs_readonly_view" }, 1);
+                out.stat(&format!("long_lived_run_length_{}", if j - i >= 6 { "6_or_more".to_string() } else { (j - i).to_string() }), 1);
+                out.stat(if matches!(v, VRef::Single(_)) { "long_lived_runs_single_level" } else { "long_lived_runs_multi_level" }, 1);
+                out.stat("long_lived_ops", (j - i) as u64);
+            }
+            if mu && j - i >= 2 {
+                // 0: nothing yet, 1: just after remove(absent), 2: after remove(absent) then reads only
+                let mut pending_absent = false;
+                let mut reads_since = false;
+                let mut seen_set_then_del = 0u8; // 1: set seen, 2: set then remove(present) seen
+                for x in i..j {
+                    let unchanged = x > 0 && obs[x].1 == obs[x - 1].1 || x == 0 && obs[x].1.is_empty();
+                    match &ops[x] {
+                        Op::VSet(..) => {
+                            if pending_absent {
+                                out.stat(if reads_since { "ll_remove_absent_reads_then_set" } else { "ll_remove_absent_then_set" }, 1);
+                            }
+                            if seen_set_then_del == 2 {
+                                out.stat("ll_set_remove_set", 1);
+                            }
+                            seen_set_then_del = 1;
+                            pending_absent = false;
+                        }
+                        Op::VDel(..) => {
+                            if pending_absent {
+                                out.stat(
+                                    if unchanged { "ll_remove_absent_then_remove_absent" } else { "ll_remove_absent_then_remove_present" },
+                                    1,
+                                );
+                            }
+                            if !unchanged && seen_set_then_del == 1 {
+                                seen_set_then_del = 2;
+                            }
+                            pending_absent = unchanged;
+                            reads_since = false;
+                        }
+                        _ => {
+                            if pending_absent {
+                                reads_since = true;
+                                out.stat("ll_remove_absent_then_read", 1);
+                            }
+                        }
+                    }
+                }
+            }
+        }
+        i = j;
+    }
+}
+
 fn emit(out: &mut Out, inp: &Input) {
     let obs = run_impl(inp);
-    // print each distinct raw dump once (let-bound), observations refer to it
+    let obs2 = run_long(inp);
+    // the long-lived pass is handed to Coq when it differs in kind from the first one, i.e. when at least
+    // one run has two operations or more (otherwise it is the first pass again, view for view)
+    let long_lived = obs2.iter().any(|(_, d)| d.is_none());
+    // print each distinct raw dump once (let-bound), observations of both passes refer to it
     let mut dumps: Vec<&Vec<(Bs, Bs)>> = vec![];
-    let mut idx = vec![];
-    for (_, d) in &obs {
-        if dumps.last().map(|l| *l == d).unwrap_or(false) {
-            idx.push(dumps.len() - 1);
-        } else {
+    let mut index: std::collections::BTreeMap<&Vec<(Bs, Bs)>, usize> = Default::default();
+    let mut intern = |d| {
+        *index.entry(d).or_insert_with(|| {
             dumps.push(d);
-            idx.push(dumps.len() - 1);
-        }
-    }
+            dumps.len() - 1
+        })
+    };
+    let idx: Vec<usize> = obs.iter().map(|(_, d)| intern(d)).collect();
+    let idx2: Vec<Option<usize>> = obs2.iter().map(|(_, d)| d.as_ref().map(&mut intern)).collect();
     let mut coq = String::new();
     for (i, d) in dumps.iter().enumerate() {
         coq.push_str(&format!("let d{} : list kv := {} in ", i, coq_list(d, coq_kvb)));
     }
-    coq.push_str(&format!(
-        "c07 {} {}",
-        coq_list(&inp.ops, coq_op),
-        coq_list(&obs.iter().zip(&idx).collect::<Vec<_>>(), |((a, _), i)| format!("({}, d{})", coq_ans(a), i))
-    ));
+    let coq_obs1 = coq_list(&obs.iter().zip(&idx).collect::<Vec<_>>(), |((a, _), i)| format!("({}, d{})", coq_ans(a), i));
+    if long_lived {
+        let coq_obs2 = coq_list(&obs2.iter().zip(&idx2).collect::<Vec<_>>(), |((a, _), i)| match i {
+            Some(i) => format!("({}, Some d{})", coq_ans(a), i),
+            None => format!("({}, None)", coq_ans(a)),
+        });
+        coq.push_str(&format!("c07l {} {} {}", coq_list(&inp.ops, coq_op), coq_obs1, coq_obs2));
+        out.stat("cases_with_long_lived_pass", 1);
+    } else {
+        coq.push_str(&format!("c07 {} {}", coq_list(&inp.ops, coq_op), coq_obs1));
+    }
+    long_lived_stats(out, inp, &obs);
     let mut view_write = false;
     let mut nonempty_range = false;
     let mut paths = std::collections::BTreeSet::new();
@@ -732,9 +898,20 @@ fn emit(out: &mut Out, inp: &Input) {
             }
         })
         .collect();
+    let js_obs2: Vec<serde_json::Value> = obs2
+        .iter()
+        .map(|(a, d)| match d {
+            Some(d) => serde_json::json!({"ans": a, "raw": d}),
+            None => serde_json::json!({"ans": a, "raw": "view object alive"}),
+        })
+        .collect();
+    let mut js = serde_json::json!({"input": inp, "observed": js_obs});
+    if long_lived {
+        js["observed_long_lived"] = serde_json::Value::Array(js_obs2);
+    }
     out.push(Case {
         key: format!("{:?}", inp),
-        json: serde_json::json!({"input": inp, "observed": js_obs}),
+        json: js,
         coq,
         nontrivial: view_write && nonempty_range && max_keys >= 2,
     });
